@@ -59,6 +59,55 @@ def encode(data, policy):
     return bytes(out), dec
 
 
+def greedy_sequences(data):
+    """[(literal_length, match_length, offset)] of the greedy parse; the final literal run is not included"""
+    n = len(data); i = 0; anchor = 0; table = {}; seqs = []; indexed = 0
+    while i + 12 < n:
+        for k in range(indexed, i):
+            if k + 4 <= n: table.setdefault(bytes(data[k:k + 4]), []).append(k)
+        indexed = max(indexed, i)
+        c = candidates(data, i, table)
+        if c:
+            off, m = c[0]; seqs.append([i - anchor, m, off]); i += m; anchor = i; continue
+        i += 1
+    return seqs
+
+
+def emit_sequences(data, seqs):
+    out = bytearray(); pos = 0
+    def tok(ll, mlen):
+        out.append((min(ll, 15) << 4) | (0 if mlen is None else min(mlen - 4, 15)))
+        if ll >= 15:
+            r = ll - 15
+            while r >= 255: out.append(255); r -= 255
+            out.append(r)
+    for ll, m, off in seqs:
+        tok(ll, m); out.extend(data[pos:pos + ll]); pos += ll; out.extend(struct.pack('<H', off))
+        if m - 4 >= 15:
+            r = m - 4 - 15
+            while r >= 255: out.append(255); r -= 255
+            out.append(r)
+        pos += m
+    tok(len(data) - pos, None); out.extend(data[pos:])
+    return bytes(out)
+
+
+def barely_shrinking(data):
+    """valid blocks that are exactly k = 1..12 bytes shorter than the data: the LAST match of the greedy parse is shortened byte by byte (the cut bytes join the
+    final literal run) and dropped when it is down to 4, again and again, until the block is no longer shorter than the data"""
+    n = len(data); res = {}
+    seqs = [list(q) for q in greedy_sequences(data)]
+    cur = emit_sequences(data, seqs)
+    while len(cur) < n:
+        k = n - len(cur)
+        if 1 <= k <= 12 and k not in res: res[k] = cur
+        if not seqs: break
+        if seqs[-1][1] > 4: seqs[-1][1] -= 1
+        else: seqs.pop()
+        cur = emit_sequences(data, seqs)
+    return res
+
+
 def variants(plain, tier):
     base, nd = encode(plain, {})
     yield {}, base
@@ -66,6 +115,9 @@ def variants(plain, tier):
     for d in range(nd):
         for a in alts:
             yield {d: a}, None
+    # barely shrinking encodings: valid blocks exactly 1..12 bytes shorter than the data
+    for k, enc in sorted(barely_shrinking(plain).items()):
+        yield {'shorter_by': k}, enc
     if tier == 'thorough':
         for d1 in range(nd):
             for d2 in range(d1 + 1, min(nd, d1 + 9)):        # pairs of nearby decisions
@@ -90,7 +142,7 @@ def main():
                 for w, (policy, pre) in zip(which, combo):
                     plain = tables[w.encode()]
                     enc = pre if pre is not None else encode(plain, policy)[0]
-                    if len(enc) + 8 >= len(plain): ok = False; break         # the decoder by contract rejects encodings that do not shrink the data
+                    if len(enc) >= len(plain): ok = False; break         # the property covers every valid block that is shorter than the data (the 8-byte table header does not count)
                     t[w.encode()] = plain[:4] + struct.pack('>I', (1 << 27) | len(plain)) + enc; pol[w] = {str(k): v for k, v in policy.items()}
                 if ok:
                     meta = json.dumps(dict(family='lz4_transparency', tables=list(which), policy=pol)).encode()
